@@ -382,6 +382,60 @@ def _nzs(t):
     return re.sub(r"\s+", "", t or "")
 
 
+def rule_singleton_scan(P):
+    """a full-stored node of size s says only that its last non-transparent child sits at index s-1; how many *other* children are non-transparent can
+    be learnt only by reading the slots.  In the full-stored branch of isSingletonNode every `return false` therefore rests on a slot that was read and
+    found non-transparent — never on the size alone (a lone child at index 4 is stored full with size 5 under the FULL_ONLY policy).  Two independent
+    seeds (C01a, C02b) put `if (size > 2) return false` here."""
+    from rules_dispatch import _context
+    R = RuleResult("codec.singleton-scan", "in the full-stored branch of simple_separated::isSingletonNode every `return false` is control-dependent on a comparison that reads a child slot; the sparse branch may decide on the stored count alone")
+    fs = [f for f in P.fns.values() if f["q"].endswith("simple_separated::isSingletonNode") and f.get("cfg")]
+    if not fs:
+        raise AnalysisBroken("codec.singleton-scan: simple_separated::isSingletonNode not found")
+    f = fs[0]
+    g = Graph(f)
+    R.functions.add(f["inst"])
+    sparse_vars = {n.ev["var"] for n in g.nodes if n.kind == "ldef" and re.search(r"\bisSparse\s*\(", n.ev.get("rhs", ""))}
+    ptrs = {n.ev["var"] for n in g.nodes if n.kind == "ldef" and n.ev.get("ptr")}
+    sp = [b for b in g.nodes if b.kind == "branch" and b.cond and len(b.succ) == 2 and (any(r in sparse_vars for r in b.cond.get("refs", [])) or any(c.endswith("isSparse") for c in b.cond["calls"]))]
+    if len(sp) != 1:
+        raise AnalysisBroken("codec.singleton-scan: the sparse / full test of isSingletonNode was not found")
+    b = sp[0]
+    te = 1 if b.cond.get("neg") else 0
+    sparse_arm = g.reach([s_ for s_, i in b.succ if i == te]) - g.reach([s_ for s_, i in b.succ if i != te])
+
+    def governing(k):
+        """conditions that decide whether k runs, loop back edges cut: branch c governs k when k is reachable from exactly one arm of c without passing c again"""
+        out = []
+        for c in g.nodes:
+            if c.kind != "branch" or not c.cond or len(c.succ) != 2:
+                continue
+            arms = [i for s_, i in c.succ if k.id in g.reach([s_], avoid=lambda x, c=c: x.id == c.id)]
+            if len(arms) == 1:
+                out.append(c.cond["text"])
+        return out
+    n = 0
+    for k in g.nodes:
+        if k.kind != "ret" or re.sub(r"\s+", "", k.ev.get("text", "")) not in ("false", "0"):
+            continue
+        if k.id in sparse_arm:
+            continue
+        n += 1
+        R.paths += 1
+        conds = governing(k)
+        reads_slot = any(re.search(r"(?<!\w)%s\[" % re.escape(p_), t) for t in conds for p_ in ptrs)
+        iid = "isSingletonNode (full form): `return false` at line %s rests on a slot that was read" % k.line
+        if reads_slot:
+            R.ok(iid, where(f, k.line))
+        else:
+            R.fail(iid, where(f, k.line), Finding(R.rule, f["file"], base_name(f["q"]), "return-false@%s" % re.sub(r"\s+", "", ";".join(c for c in conds if not any(v in c for v in sparse_vars)))[:50],
+                   "in the full-stored form `not a singleton` is concluded from %s without reading any child slot: a node whose only non-transparent child has a high index is stored full under the FULL_ONLY policy, is a singleton, and is no longer recognised (identity-reduced relations then keep illegal i→{i→d} patterns)" % ([c for c in conds if not any(v in c for v in sparse_vars)] or "nothing"), k.line))
+    if n < 1:
+        raise AnalysisBroken("codec.singleton-scan: no `return false` in the full-stored branch")
+    R.require_floor(1, "negative answers of the full-form singleton test")
+    return R
+
+
 def rule_chunkptr(P):
     """memory.h: a pointer from getChunkAddress is valid only until the next requestChunk of the same manager"""
     R = RuleResult("chunkptr", "in storage/simple.cc and storage/ct_styles.cc a local pointer obtained from getChunkAddress is not used after a call that can reach requestChunk (the array-based memory managers may move their storage)")
@@ -453,4 +507,4 @@ def rule_chunkptr(P):
     return R
 
 
-RULES = [rule_threshold_first, rule_coalesce, rule_serve, rule_layout, rule_chunkptr]
+RULES = [rule_threshold_first, rule_coalesce, rule_serve, rule_singleton_scan, rule_layout, rule_chunkptr]
